@@ -2,7 +2,8 @@
 from contracts import codec_common as K
 
 LEVEL = 'proof'
-TRUSTED = ['E-STRUCT: struct.Struct(fmt).pack/unpack are big-endian two\'s complement on the type\'s range and raise struct.error outside it',
+TRUSTED = ['E-DATETIME: a datetime is an integer count of microseconds since 1970-01-01 UTC within years 1..9999; calendar.timegm(dt.utctimetuple()) is its floor seconds, dt.microsecond the remainder; timedelta(milliseconds=k) is exactly 1000k microseconds and datetime + timedelta adds or raises OverflowError (contracts/codec_common.py _stub_datetime; probed by the bounded timestamp stand-ins on the real library); date * 1e3 is real arithmetic (A-REAL)',
+           'E-STRUCT: struct.Struct(fmt).pack/unpack are big-endian two\'s complement on the type\'s range and raise struct.error outside it',
            'E-FLOAT: IEEE pack/unpack are inverse (binary32 rounds once)', 'A-TYPES: argument kinds as declared per harness',
            'spec functions in spec/cser.py are the oracle (transcribed from Cassandra\'s serializers)']
 EXPLANATION = 'postcondition serialize(v) == spec bytes, discharged per path by z3 over mathematical integers and Seq(Int)'
@@ -13,6 +14,7 @@ for _c, _w, _s in K.FIXED_INTS:
 K.mk_boolean('C02')
 K.mk_simpledate('C02')
 K.mk_time('C02')
+K.mk_timestamp('C02')
 K.mk_zigzag('C02')
 K.mk_vints_pack('C02', 1)
 K.mk_vints_pack('C02', 2)
